@@ -183,6 +183,50 @@ func vrtHarness_C03_handle() {
 			want = int(clientOpt.Hdr.Class)
 		}
 		vrtAssert("UDP reply is truncated to max(512, advertised size) after the OPT was attached", vrtFitsUDP(m, want))
+		if !vrtSymbolic() {
+			// native replay only: the symbolic run decides this clause from the recorded Truncate call; natively
+			// the real Truncate runs, so sweep answer sizes around the limit to expose a wrong call
+			vrtUDPSweep(clientOpt)
+		}
+	}
+}
+
+func vrtUDPSweep(clientOpt *dns.OPT) {
+	want := 512
+	if clientOpt != nil && int(clientOpt.Hdr.Class) > 512 {
+		want = int(clientOpt.Hdr.Class)
+	}
+	if want > 4096 {
+		return
+	}
+	for pad := want - 140; pad <= want+20; pad++ {
+		q := new(dns.Msg)
+		q.Id = 1
+		q.Question = []dns.Question{{Name: "a.", Qtype: dns.TypeTXT, Qclass: dns.ClassINET}}
+		if clientOpt != nil {
+			q.Extra = []dns.RR{dns.Copy(clientOpt)}
+		}
+		ent := &vrtEntry{mode: 2, origName: "a."}
+		ent.build = func(qq *dns.Msg) *dns.Msg {
+			r := new(dns.Msg)
+			r.SetReply(qq)
+			var txt []string
+			for n := pad; n > 0; n -= 200 {
+				k := n
+				if k > 200 {
+					k = 200
+				}
+				txt = append(txt, string(make([]byte, k)))
+			}
+			r.Answer = []dns.RR{&dns.TXT{Hdr: dns.RR_Header{Name: "a.", Rrtype: dns.TypeTXT, Class: dns.ClassINET, Ttl: 1}, Txt: txt}}
+			return r
+		}
+		var got *dns.Msg
+		pack := func(m *dns.Msg) (*[]byte, error) { got = m; b := []byte{0}; return &b, nil }
+		NewEntryHandler(EntryHandlerOpts{Entry: ent}).Handle(context.Background(), q, server.QueryMeta{FromUDP: true}, pack)
+		if got != nil {
+			vrtAssert("UDP reply is truncated to max(512, advertised size) after the OPT was attached", got.Len() <= want)
+		}
 	}
 }
 
